@@ -392,7 +392,7 @@ pub fn run(ctx: &Ctx) -> i32 {
         res
     });
     // ---- random long programs ------------------------------------------------------------
-    let nrand = ctx.tier.pick(30_000u64, 1_000_000u64);
+    let nrand = ctx.tier.pick(150_000u64, 3_000_000u64);
     let full: Vec<Sym> = vec![Sym::L, Sym::C, Sym::K, Sym::S, Sym::T0, Sym::T1, Sym::T2, Sym::P4, Sym::P11, Sym::PN, Sym::I, Sym::I, Sym::U0, Sym::U1, Sym::U2, Sym::U3, Sym::U3, Sym::U1, Sym::F];
     let rnd = run_stage(ctx, "random-programs", nrand, |i| {
         let mut rng = Rng::derive(ctx.seed, "C10", i);
